@@ -238,11 +238,13 @@ func (s *SimStore) SubFetch(ctx context.Context, br blob.Ref, offset, length int
 
 func (s *SimStore) ReceiveBlob(ctx context.Context, br blob.Ref, source io.Reader) (blob.SizedRef, error) {
 	simcore.Yield("ss:" + s.name() + ":recv")
+	// (a slow store is slow before it has read what it is given: a caller
+	// that hands the same buffer to somebody else meanwhile is found out)
+	kind, _ := s.Env.Enter(s.G, s.name(), "ReceiveBlob", true)
 	all, err := io.ReadAll(source)
 	if err != nil {
 		return blob.SizedRef{}, err
 	}
-	kind, _ := s.Env.Enter(s.G, s.name(), "ReceiveBlob", true)
 	if kind == FErr {
 		s.St.LogEvent("recv-ret", br.String(), false)
 		return blob.SizedRef{}, injected(s.name(), "ReceiveBlob", kind)
